@@ -1,6 +1,6 @@
 (* Executed instance of the `interp` family (C14 strength of connection, C12 interpolation) at Qc. *)
 From Coq Require Import QArith Qcanon Qcabs.
-From Raptor Require Import Base.Sums Sparse.Defs Extract.Inst Amg.Strength.
+From Raptor Require Import Base.Sums Sparse.Defs Extract.Inst Amg.Strength Amg.Interp.
 
 Local Open Scope Qc_scope.
 
@@ -9,3 +9,13 @@ Definition rand_max : Qc := Q2Qc (2147483647 # 1).
 
 Definition q_strength_seq := strength_seq Qc 0 Qcmult Qc_ltb rand_max (- rand_max).
 Definition q_strength_par := strength_par Qc 0 Qcmult Qc_ltb rand_max (- rand_max).
+
+(* |x - 1| <= 1e-9: tolerance of the row-sum clause when the checker reads floating-point output *)
+Definition Qc_close1 (x : Qc) : bool := Qc_leb (Qcabs (x - 1)) (Q2Qc (1 # 1000000000)).
+
+Definition q_direct := direct_interpolation Qc 0 1 Qcplus Qcmult Qcopp Qcdiv Qc_ltb Qc_eqb.
+Definition q_par_direct := par_direct_interpolation Qc 0 1 Qcplus Qcmult Qcopp Qcdiv Qc_ltb Qc_eqb.
+Definition q_mod_classical := mod_classical_interpolation Qc 0 1 Qcplus Qcmult Qcopp Qcdiv Qc_ltb Qc_small.
+Definition q_extended := extended_interpolation Qc 0 1 Qcplus Qcmult Qcopp Qcdiv Qc_ltb Qc_small.
+(* the value of a C row is compared with tolerance-free equality: the implementations store exactly 1.0 *)
+Definition q_interp_ok := interp_ok Qc 0 1 Qcplus Qc_ltb Qc_eqb Qc_close1.
